@@ -44,8 +44,13 @@ FoldAsgs(cfg, asgs, i) == IF i > Len(asgs) THEN cfg ELSE FoldAsgs(Apply(cfg, asg
 RECURSIVE Flatten(_, _)
 Flatten(docs, i) == IF i > Len(docs) THEN << >> ELSE docs[i] \o Flatten(docs, i + 1)
 ItemAsgs(items) == Flatten([j \in 1..Len(items) |-> items[j].asgs], 1)
-\* s = [rootl, sdcf, dcf, env, pre (documents before the name), post (items after the name), named (the sub-command is
-\* named on the command line; otherwise it is selected by the section of a root-level document and post is empty)]
+\* s = [rootl, sdcf, dcf, env, pre (documents before the name), post (items after the name),
+\*      sel    how sub-command `a` is selected: "name" (named on the command line), "section" (by the section of a
+\*             root-level document alone; post is empty) or "key" (a first --cfg={"subcommand": "a"}; post is empty),
+\*      first  `a` is declared before the other sub-command `b`,
+\*      other  the root default config file ALSO holds a section for `b`,
+\*      dotted the root-level documents spell the section with dotted keys ("a.x": 8) instead of nested mappings;
+\*             "yes" | "no" | "any" (the renderer chooses; the invariant SpellingIrrelevant shows it cannot matter)]
 RefWith(s, files) == FoldAsgs(SubDefaults, files \o s.env \o Flatten(s.pre, 1) \o ItemAsgs(s.post), 1)
 RefOutcomes(s) == {RefWith(s, s.sdcf \o s.dcf), RefWith(s, s.dcf \o s.sdcf)}
 
@@ -54,7 +59,16 @@ RefOutcomes(s) == {RefWith(s, s.sdcf \o s.dcf), RefWith(s, s.dcf \o s.sdcf)}
 (***************************************************************************)
 \* the sub-parser's own parse (parse_args of the sub-parser, or parse_env / get_defaults in handle_subcommands):
 \* its defaults < its default config file < its environment variables
-SubBase(s, withEnv) == FoldAsgs(SubDefaults, s.sdcf \o (IF withEnv THEN s.env ELSE << >>), 1)
+\* When handle_subcommands runs the sub-parser (parse_env / get_defaults inside parent_parsers_context, _actions.py:
+\* 783-791) the sub-parser ALSO reads the section `a:` of its parent's default config files (_get_default_config_files,
+\* _core.py:972-987: the parents' files come first, each with its key) -- with the sub-parser's own semantics, so an
+\* `l+` there extends the sub-parser's default.  The parse started by the NAME on the command line
+\* (_ActionSubCommands.__call__) runs outside that context: no parent lookup.
+\* The lookup takes the MAPPING found under the key `a` of the document (_load_config_parser_mode, _core.py:722-725
+\* cfg_dict.get(key, {})): a file that spells the section with dotted keys has no such mapping and contributes nothing.
+SubBaseD(s, withEnv, withParent, dotted) == FoldAsgs(SubDefaults, (IF withParent /\ dotted # "yes" THEN s.dcf ELSE << >>) \o s.sdcf \o (IF withEnv THEN s.env ELSE << >>), 1)
+SubBaseP(s, withEnv, withParent) == SubBaseD(s, withEnv, withParent, s.dotted)
+SubBase(s, withEnv) == SubBaseP(s, withEnv, FALSE)
 \* a document given at the ROOT level is merged into the root namespace: merge_config (_core.py:1405-1412) updates the
 \* keys a.x / a.l and then apply_appends (_typehints.py:488-495) resolves `a.l+`: the action found is the SUB-parser's
 \* --l, whose _check_type looks its previous value up under its own dest, `l`, in the namespace it is handed -- the
@@ -67,13 +81,18 @@ Over(sec, base) == [k \in Keys |-> IF sec[k] = NoVal THEN base[k] ELSE sec[k]]
 EmptySec == [k \in Keys |-> NoVal]
 \* get_defaults (_core.py:1030-1062) parses the root default config file and merges it into the root defaults: the keys
 \* of its section `a:` (and only those) are in the root namespace from then on
-AfterDcf(s) == RootMerge(s, EmptySec, s.dcf, 1)
+\* ... unless the file holds sections for SEVERAL sub-commands: get_defaults parses the file in the single-sub-command
+\* mode (get_subcommands:713-724), which chooses the first DECLARED sub-command that has a section and deletes the others
+Pruned(s) == s.other /\ ~s.first /\ s.dcf # << >>
+AfterDcf(s) == IF Pruned(s) THEN EmptySec ELSE RootMerge(s, EmptySec, s.dcf, 1)
 AfterPre(s) == RootMerge(s, AfterDcf(s), Flatten(s.pre, 1), 1)
 \* the sub-command name: the sub-parser parses the rest of the command line starting from its own defaults, file and
 \* environment with the section collected so far merged OVER them
-\* (without a name on the command line handle_subcommands does the same merge with parse_env of the sub-parser)
-AtName(s) == Over(AfterPre(s), SubBase(s, TRUE))
+\* (without a name on the command line handle_subcommands does the merge, over the sub-parser's result WITH the parent lookup)
+AtName(s) == Over(AfterPre(s), SubBaseP(s, TRUE, s.sel # "name"))
 AlgFinal(s) == FoldAsgs(AtName(s), ItemAsgs(s.post), 1)
+AlgFinalSpelled(s, dotted) == FoldAsgs(Over(AfterPre(s), SubBaseD(s, TRUE, s.sel # "name", dotted)), ItemAsgs(s.post), 1)
+SpellingIrrelevant(s) == AlgFinalSpelled(s, "yes") = AlgFinalSpelled(s, "no")
 
 (***************************************************************************)
 (* Named deviations (genuine defects of the pinned tree)                   *)
@@ -83,8 +102,17 @@ HasApp(asgs) == \E i \in 1..Len(asgs) : asgs[i].op = "app"
 \* sub-command's --l has at that point
 RootDocAppend(s) == HasApp(s.dcf) \/ HasApp(Flatten(s.pre, 1))
 \* C17 dcf:subcommand-settings seen from C04 -- the section of the root default config file beats the environment
-DcfOverEnv(s) == \E i \in 1..Len(s.dcf), j \in 1..Len(s.env) : s.dcf[i].k = s.env[j].k
+DcfOverEnv(s) == ~Pruned(s) /\ \E i \in 1..Len(s.dcf), j \in 1..Len(s.env) : s.dcf[i].k = s.env[j].k
+\* C04 sub-command:dcf-section-pruned -- the root default config file has sections for several sub-commands and `a` is
+\* not the first declared one: its section is deleted when the file is loaded; a sub-command NAMED on the command line
+\* never sees it again (one selected by a config does, through the parent lookup)
+DcfSectionPruned(s) == Pruned(s) /\ s.sel = "name"
+\* C04 sub-command:dcf-dotted-section-not-looked-up -- the same sub-command selected by a config reads the pruned section
+\* back through the parent lookup only when the file spells it as a nested mapping
+DcfDottedNotLookedUp(s) == Pruned(s) /\ s.sel # "name" /\ s.dotted = "yes"
 Deviation(s) == IF AlgFinal(s) \in RefOutcomes(s) THEN "none"
+                ELSE IF DcfSectionPruned(s) THEN (IF HasApp(Flatten(s.pre, 1)) THEN "dcf-section-pruned+root-doc-append" ELSE "dcf-section-pruned")
+                ELSE IF DcfDottedNotLookedUp(s) THEN (IF HasApp(Flatten(s.pre, 1)) THEN "dcf-dotted-section-not-looked-up+root-doc-append" ELSE "dcf-dotted-section-not-looked-up")
                 ELSE IF RootDocAppend(s) /\ DcfOverEnv(s) THEN "root-doc-append+dcf-over-env"
                 ELSE IF RootDocAppend(s) THEN "root-doc-append"
                 ELSE IF DcfOverEnv(s) THEN "dcf-over-env"
